@@ -83,6 +83,9 @@ def read_spec(draw, cfg: Cfg, field: str, version: int, allow_group=True):
         kind = draw(st.sampled_from(["gtxn", "gtxns"] if version >= 3 else ["gtxn"]))
         return ["read", {"kind": kind, "field": field, "idx": cfg.pin}]
     kinds = ["txn"] * 6
+    if field in ("OnCompletion", "ApplicationID") and not cfg.on("oc_appid_checks_on_group_members"):
+        # known finding (an OnCompletion / ApplicationID check drops the non-application kinds): only own reads
+        allow_group = False
     if allow_group and cfg.on("gtxn_reads"):
         kinds += ["gtxn"] * 2
         if version >= 3:
